@@ -8,6 +8,7 @@ import re
 from .. import classify, drive, hist, world
 from ..oracle import xmlread
 
+TECHNIQUE = 'runtime monitoring: stdout of info parsed and compared with the manifests read independently'
 LEVEL = "exploration"
 RULE = (
     "case = history with 1-6 generations (changing formats, failed and new-format entries, -sf generations), 0-3 nested "
